@@ -8,6 +8,11 @@
 //!  "cancel": socketpair with a small kernel send buffer; the peer does not read; a send is abandoned
 //!            by a timeout; the number of bytes the kernel took is measured at the peer; a further
 //!            message is sent; the peer's raw byte stream is reported.
+//!  "backpressure": socketpair with a small kernel send buffer; the connection's writer sends `n` frames of
+//!            `size` bytes to a peer that does not read yet (the send direction backs up) while its reader
+//!            waits; the peer then writes one small frame and only 3 s later starts to drain. The small
+//!            frame must be received before the drain starts (a receive must be woken by arriving data,
+//!            whatever the state of the send direction), and the drained frames must be intact.
 use serde::{Deserialize, Serialize};
 use serde_json::{json, Value};
 use std::future::Future;
@@ -130,6 +135,80 @@ fn check_call(i: usize, sz: usize, r: zlink_core::Result<Call<Method>>) -> Strin
         }
         Err(e) => format!("err:{}", zv::err_name(&e)),
     }
+}
+
+/// Peer of the backpressure scenario (a plain thread on the raw socket): lets the sender back up, writes
+/// one small frame, waits, then drains `n` frames. Returns (when the drain started, frames intact?).
+fn backpressure_peer(mut peer: StdStream, n: usize, size: usize) -> std::thread::JoinHandle<(std::time::Instant, usize, bool)> {
+    std::thread::spawn(move || {
+        std::thread::sleep(Duration::from_millis(400));
+        let mut small = serde_json::to_vec(&msg(0, 1, 0, 8)).unwrap();
+        small.push(0);
+        let _ = peer.write_all(&small);
+        let _ = peer.flush();
+        std::thread::sleep(Duration::from_millis(3000));
+        let drain_start = std::time::Instant::now();
+        peer.set_read_timeout(Some(Duration::from_secs(10))).unwrap();
+        let mut got: Vec<u8> = Vec::new();
+        let mut buf = vec![0u8; 65536];
+        let mut frames = 0usize;
+        while frames < n {
+            match peer.read(&mut buf) {
+                Ok(0) | Err(_) => break,
+                Ok(k) => {
+                    frames += buf[..k].iter().filter(|b| **b == 0).count();
+                    got.extend_from_slice(&buf[..k]);
+                }
+            }
+        }
+        let mut expect: Vec<u8> = Vec::new();
+        for i in 0..n {
+            expect.extend(serde_json::to_vec(&msg(0, 0, i, size)).unwrap());
+            expect.push(0);
+        }
+        (drain_start, frames, got == expect)
+    })
+}
+
+/// The connection's side of the backpressure scenario: reader and writer polled side by side.
+async fn backpressure_body<R: ReadHalf, W: WriteHalf>(mut r: ReadConnection<R>, mut w: WriteConnection<W>, n: usize, size: usize,
+                                                        sleep: Sleep) -> (Option<(std::time::Instant, String)>, Result<(), String>) {
+    let reader = async {
+        let res = r.receive_call::<Method>().await;
+        let at = std::time::Instant::now();
+        let s = match res {
+            Ok(c) => {
+                let Method::Put { name, value } = c.method();
+                if *value == 0 && *name == body(0, 1, 0, 8) { "ok".to_string() } else { "corrupt".to_string() }
+            }
+            Err(e) => format!("err:{}", zv::err_name(&e)),
+        };
+        (at, s)
+    };
+    let writer = async {
+        for i in 0..n {
+            w.send_call(&msg(0, 0, i, size)).await.map_err(|e| format!("send: {e:?}"))?;
+        }
+        Ok::<(), String>(())
+    };
+    futures_lite::future::or(
+        async {
+            let (a, b) = futures_lite::future::zip(reader, writer).await;
+            (Some(a), b)
+        },
+        async {
+            sleep(Duration::from_secs(20)).await;
+            (None, Err("timeout".to_string()))
+        },
+    )
+    .await
+}
+
+fn backpressure_result(recv: Option<(std::time::Instant, String)>, wres: Result<(), String>,
+                       peer: (std::time::Instant, usize, bool)) -> Value {
+    let (drain_start, frames, intact) = peer;
+    json!({"recv": recv.as_ref().map(|x| x.1.clone()), "recv_before_drain": recv.as_ref().map(|x| x.0 < drain_start),
+           "write": wres.err(), "frames": frames, "intact": intact})
 }
 
 fn set_small_sndbuf(fd: i32) {
@@ -267,6 +346,22 @@ mod tk {
             drop(conn);
             let _ = th.join();
             json!({"results": results, "cancels": cancels})
+        })
+    }
+
+    pub fn backpressure(case: &Value) -> Value {
+        let rt = tokio::runtime::Builder::new_current_thread().enable_all().build().unwrap();
+        rt.block_on(async {
+            let (a, peer) = StdStream::pair().unwrap();
+            set_small_sndbuf(a.as_raw_fd());
+            a.set_nonblocking(true).unwrap();
+            let stream = tokio::net::UnixStream::from_std(a).unwrap();
+            let conn: Connection<zlink_tokio::unix::Stream> = Connection::new(zlink_tokio::unix::Stream::from(stream));
+            let (n, size) = (case["n"].as_u64().unwrap() as usize, case["size"].as_u64().unwrap() as usize);
+            let th = backpressure_peer(peer, n, size);
+            let (r, w) = conn.split();
+            let (recv, wres) = backpressure_body(r, w, n, size, sleep).await;
+            backpressure_result(recv, wres, th.join().unwrap())
         })
     }
 
@@ -472,6 +567,20 @@ mod sm {
         })
     }
 
+    pub fn backpressure(case: &Value) -> Value {
+        smol::block_on(async {
+            let (a, peer) = StdStream::pair().unwrap();
+            set_small_sndbuf(a.as_raw_fd());
+            let stream = async_io::Async::new(a).unwrap();
+            let conn: Connection<zlink_smol::unix::Stream> = Connection::new(zlink_smol::unix::Stream::from(stream));
+            let (n, size) = (case["n"].as_u64().unwrap() as usize, case["size"].as_u64().unwrap() as usize);
+            let th = backpressure_peer(peer, n, size);
+            let (r, w) = conn.split();
+            let (recv, wres) = backpressure_body(r, w, n, size, sleep).await;
+            backpressure_result(recv, wres, th.join().unwrap())
+        })
+    }
+
     pub fn cancel(case: &Value) -> Value {
         smol::block_on(async {
             let (a, mut peer) = StdStream::pair().unwrap();
@@ -554,6 +663,8 @@ fn run_case(case: &Value) -> Value {
         ("tokio", "intact") => tk::intact(case),
         ("tokio", "cancel") => tk::cancel(case),
         ("tokio", "recv_cancel") => tk::recv_cancel(case),
+        ("tokio", "backpressure") => tk::backpressure(case),
+        ("smol", "backpressure") => sm::backpressure(case),
         ("smol", "recv_cancel") => sm::recv_cancel(case),
         ("smol", "intact") => sm::intact(case),
         ("smol", "cancel") => sm::cancel(case),
